@@ -101,6 +101,11 @@ def _quote(value: str) -> str:
     a value containing a double quote is written in single quotes.
     """
     value = value.replace("\\", "\\\\").replace("\n", "\\n").replace("\r", "\\r")
+    # neither a NUL nor a lone surrogate can appear raw in the source packaging evaluates
+    value = "".join(
+        f"\\u{ord(c):04x}" if c == "\0" or "\ud800" <= c <= "\udfff" else c
+        for c in value
+    )
     if '"' in value and "'" not in value:
         return f"'{value}'"
     return '"' + value.replace('"', "\\x22") + '"'
